@@ -8,9 +8,10 @@ import common as C
 
 LIST_CFG = ("SPECIFICATION Spec\nCONSTANTS Inst = \"%s\"\n MaxLen = %d\n MaxItems = %d\n MaxCmt = %d\n MaxNl = %d\n"
             " MaxW = %d\n Unit = %d\n GenOn = %s\nINVARIANTS %s\nCHECK_DEADLOCK FALSE\n")
-LIST_INVS = "InvTermination InvConservation InvNoDoubleBlank InvIndentUnit InvHygiene WidthStable"
+LIST_INVS = "InvTermination InvConservation InvNoDoubleBlank InvIndentUnit InvHygiene WidthStable InvConvergence"
 
-DELIMS = {"array": ("#(", ")"), "dict": ("#(", ")"), "args": ("#f(", ")"), "paren": ("#(", ")"), "block": ("#{", "}")}
+DELIMS = {"array": ("#(", ")"), "dict": ("#(", ")"), "args": ("#f(", ")"), "paren": ("#(", ")"), "block": ("#{", "}"),
+          "eq": ("$", "$")}
 
 
 def concretise_list(inst, seq):
@@ -33,6 +34,8 @@ def concretise_list(inst, seq):
 
 def list_behaviours(workdir, inst, maxlen, maxitems=3, maxcmt=2, maxnl=2, maxw=24, unit=2, gen=True, workers=8, timeout=1500):
     """Runs the design check of ListMC for one call site; with gen also returns the behaviours."""
+    if inst == "eq":
+        maxitems = 1
     cfg = LIST_CFG % (inst, maxlen, maxitems, maxcmt, maxnl, maxw, unit, "TRUE" if gen else "FALSE",
                       LIST_INVS + (" Gen" if gen else ""))
     r = C.model_check("ListMC", cfg, workdir, workers=workers, xmx="8g", timeout=timeout)
@@ -112,7 +115,7 @@ def chain_behaviours(workdir, maxlen, maxops=3, maxcmt=2, maxw=30, unit=2, gen=T
 
 MARKUP_CFG = ("SPECIFICATION Spec\nCONSTANTS MaxLen = %d\n MaxCmt = %d\n MaxW = %d\n Unit = %d\n GenOn = %s\n"
               "INVARIANTS %s\nCHECK_DEADLOCK FALSE\n")
-MARKUP_INVS = "InvTermination InvConservation InvHygiene InvIndentUnit InvProseLines"
+MARKUP_INVS = "InvTermination InvConservation InvHygiene InvIndentUnit InvProseLines InvConvergence"
 
 
 def markup_behaviours(workdir, maxlen, maxcmt=2, maxw=20, unit=2, gen=True, workers=8, timeout=1500):
